@@ -137,9 +137,9 @@ def oracle(ck, extended):
         H = rng.randint(2, 10 if q else 14); W = rng.randint(2, 10 if q else 14)
         if it % 4 < 2:
             skm = rng.choice([0, 0, rng.randint(0, 2 ** J - 1)]); inm = rng.choice([0, 0, rng.randint(0, 2 ** J - 1)])
-            oracle_fwd_grad(ck, ff, J, (H, W), o, ri, skm, inm, named, tol)
+            rt.guard(ck, oracle_fwd_grad, ck, ff, J, (H, W), o, ri, skm, inm, named, tol)
         else:
-            oracle_inv_grad(ck, fi, J, H, W, o, ri, rng.randint(1, 2 ** (J + 1) - 1), named, tol)
+            rt.guard(ck, oracle_inv_grad, ck, fi, J, H, W, o, ri, rng.randint(1, 2 ** (J + 1) - 1), named, tol)
 
 
 def corr_cases(ck, n):
